@@ -274,7 +274,12 @@ class AXI4MemSlave(Multi):
         self.aw = bench.Consumer(bus.aw, sched["aw"], until=until, check_hold=False, wait_valid=wait_valid,
                                  gate=lambda: len(self.aw.got) - len(self.b.sent) < Q)
         if w_needs_aw:
-            wg = (lambda: len(self.w_bursts) < len(self.aw.got))
+            def wg():
+                # complete W bursts so far, including a final beat taken in the cycle that just ended
+                n = len(self.w_bursts)
+                if len(self.w.got) > self._nwb and self.w.got[-1][1][3]:
+                    n += 1
+                return n < len(self.aw.got)
         else:
             wg = None
         self.w = bench.Consumer(bus.w, sched["w"], until=until, check_hold=False, wait_valid=wait_valid, gate=wg)
